@@ -19,7 +19,7 @@ LimC36  == [decl |-> 1]
 LimC36b == [loud |-> 2, bangi |-> 2, rule |-> 1, mixin |-> 1, content |-> 1]
 LimC36t == [decl |-> 1, loud |-> 2, bang |-> 1, silent |-> 1, rule |-> 2, nsprop |-> 1, media |-> 1, atrule |-> 1, mixin |-> 1, content |-> 1]
 LimC21  == [error |-> 1, decl |-> 2, atstmt |-> 1, loud |-> 1]
-LimC21t == [error |-> 1, decl |-> 1, atstmt |-> 1, loud |-> 1, rule |-> 1, media |-> 1, mixin |-> 1, content |-> 1, func |-> 1]
+LimC21t == [error |-> 1, decl |-> 1, atstmt |-> 1, rule |-> 1, nsprop |-> 1, media |-> 1, atrule |-> 1, mixin |-> 1, content |-> 1, func |-> 1, if1 |-> 1, each2 |-> 1, import |-> 1, loadcss |-> 1]
 
 VARIABLES prog, open, nstmt, phase, style
 vars == <<prog, open, nstmt, phase, style>>
